@@ -1,19 +1,19 @@
 SPECIFICATION Spec
 CONSTANTS
-  SettingsSpace <- QuickSpace
-  LossKinds = {"eof", "reset", "wfail", "timeout"}
-  LoginModes = {"ok", "rejected", "garbled"}
-  BgKinds = {"pparent", "ctp", "stimer", "retry", "sreply", "xfer"}
+  SettingsSpace <- TinySpace
+  LossKinds = {"reset", "eof", "wfail"}
+  LoginModes = {"ok"}
+  BgKinds = {"pparent", "stimer", "xfer"}
   MaxBg = 1
   MaxLosses = 1
-  MaxLogins = 2
+  MaxLogins = 1
   Env = {"exec", "peerin", "userdisc", "midburst"}
-  MaxConnFail = 1
+  MaxConnFail = 0
   FixAutoJoin = TRUE
   FixDistStopped = TRUE
   FixWatchdogStopped = TRUE
   FixTimersStopped = TRUE
-  FixStaleInit = TRUE
+  FixStaleInit = FALSE
   FixSelfAwait = TRUE
   FixQueueOnce = TRUE
 INVARIANT TypeOK
